@@ -10,8 +10,8 @@ SPEC = dict(
              'lengths: a typed store that returns appends exactly the TL-B encoding (Spec/TlbPrim.lean, written from the TL-B rules) and its refs '
              '(c06_bits_exact); the matching load on that encoding followed by any continuation returns the value and leaves exactly the continuation '
              '(c06_store_load, c06_decode_encode); any list of values stored into an empty builder loads back equal with nothing left '
-             '(c06_sequence, induction); whenever load_X returns, preload_X returns the same and leaves the slice unchanged (c06_preload_eq_load '
-             '+ c06_preload_eq_load_addr); var-int length prefixes are minimal for both signs (c06_varint_minimal); snake chains: see c06_snake*. '
+             '(c06_sequence, induction); whenever load_X returns, preload_X returns the same and leaves the slice unchanged (c06_preload_eq_load, '
+             'every kind incl. preload_address); var-int length prefixes are minimal for both signs (c06_varint_minimal); snake chains: see c06_snake*. '
              'The model is tied to the working tree by differential testing: seeded scripts run on the library and on the compiled model, and '
              'each script is also checked on the library alone against an independent Python TL-B encoder, peek/load round trip and leftovers.',
         level_note='Proved for all inputs: the statements above, about Model/Builder.lean. Only sampled: that builder.py/slice.py/tvm_bitarray.py/'
